@@ -116,7 +116,11 @@ def o_no_panic(spec, tr):
     for i in tr.panics:
         out.append("call %r panicked" % tr.lines[i])
     if tr.dead:
-        out.append("process died or a call did not return within the deadline")
+        k = next((i for i, o in enumerate(tr.outs) if o in ("<dead>", "timeout", "<no-output>")), None)
+        where = ""
+        if k is not None and k < len(tr.lines):
+            where = ": %r %s" % (tr.lines[k], "did not return within the deadline (the calling thread is blocked)" if tr.outs[k] == "timeout" else "(the process died)")
+        out.append("process died or a call did not return within the deadline" + where)
     return out
 
 
